@@ -221,7 +221,7 @@ def gen_ops(rng, count, max_iter):
                 # iterated prefix ranges stay small; everything else exercises ends + is_iterable + the cap
                 p = rng.choice([W, W - 1, W - 2, W - 3, W - 4, W - 8, W - 9, rng.randint(max(0, W - max_iter), W)])
             else:
-                p = rng.choice([0, 1, 7, 8, 9, W // 2, W + 1, W + 2, rng.randint(0, W)])
+                p = rng.choice([0, 1, 7, 8, 9, W // 2, W + 1, W + 2, rng.randint(0, W), -1, -rng.randint(1, 300)])
             ops.append(f"pfx {f} {hx(a, n)} {p}" + (f" {rng.choice([0, 1, 17, 64])}" if W - p > 16 else ""))
         elif k < 0.63:
             a = rand_addr(rng, n)
@@ -259,7 +259,7 @@ def boundary_ops(thorough):
         bases = [0, M - 1, M - 2, M - 3, M - 4, M - 5, 1, 2, 3, 4, M // 2, M // 2 - 1,
                  int.from_bytes(bytes([0xc0, 0xa8, 0x05, 0x81] * 4)[:n], "big")]
         for a in bases:
-            for p in range(0, W + 3):
+            for p in range(-2, W + 3):
                 big = W - p > (10 if not thorough else 13)
                 ops.append(f"pfx {f} {hx(a, n)} {p}" + (" 40" if big else ""))
         # all small ranges touching zero and all-ones, host-only and not
@@ -375,7 +375,7 @@ def run(chk):
                        "for IPv4, IPv6 and HWAddress<6>; distinct_nontrivial counts distinct (operation, implementation result) pairs")
     chk.assumptions += [
         "texts handed to the constructors contain no NUL byte (IPv4/IPv6 constructors take the C string)",
-        "prefix lengths are 0..8n+2 (negative prefix lengths are outside the property's quantifier)",
+        "prefix lengths range over -300..8n+2 (outside 0..8n the only requirement is std::logic_error)",
         f"iterations are cut after {CAP} steps: longer ranges are checked on their first {CAP} addresses and on not having terminated",
         "a HWAddress hash collision between different addresses would show as a model difference (std::hash<std::string>)",
         "is_iterable() of a host-only range with exactly three addresses is left unspecified (documentation says iterable, code says not)",
